@@ -111,32 +111,59 @@ def build_statement(typ, occ, showsig=None):
 
 
 # --------------------------------------------------------------------------------------------- table extraction
-def extract_tables():
-    """T[collector][kind] in {0,1}, from the REAL collectors on one-marker probes"""
+_PROBES = {}
+
+
+def probes():
+    """kind -> (probe text, statement AST, show-body literals) with the marker mk/1 at exactly that position"""
     from clingo.ast import ASTType
-    from ngo.utils import ast as nast
 
     from . import astutil
 
-    mk = ("mk", 1)
-    T = {c: {} for c in ("predicates", "headderivable_predicates", "body_predicates", "minimize_predicates", "predicates_on_show_literal")}
-    probes = {}
-    for typ in TYPES:
-        for k, _, _ in kinds_of(typ):
-            text = build_statement(typ, [(k, mk)])
-            stm = [s for s in astutil.parse(text) if s.ast_type != ASTType.Program][0]
-            probes[k] = text
+    if not _PROBES:
+        for typ in TYPES:
+            for k, _, _ in kinds_of(typ):
+                text = build_statement(typ, [(k, ("mk", 1))])
+                stm = [s for s in astutil.parse(text) if s.ast_type != ASTType.Program][0]
+                _PROBES[k] = (text, stm, typ)
+    return _PROBES
 
-            def has(it):
-                return int(any(sp.pred.name == "mk" for sp in it))
 
-            T["predicates"][k] = has(nast.predicates(stm))
-            T["headderivable_predicates"][k] = has(nast.headderivable_predicates(stm))
-            T["body_predicates"][k] = has(nast.body_predicates(stm, nast.SIGNS))
-            T["minimize_predicates"][k] = has(nast.minimize_predicates(stm, nast.SIGNS))
-            if typ == "SHOWTERM":
-                T["predicates_on_show_literal"][k] = has(itertools.chain.from_iterable(nast.predicates(l) for l in stm.body))
-    return T, probes
+def is_collector(fn):
+    """a function of ngo.utils.ast that yields SignedPredicates of an AST (recognised by its annotations)"""
+    if not callable(fn) or getattr(fn, "__module__", "") != "ngo.utils.ast":
+        return False
+    ann = getattr(fn, "__annotations__", {})
+    return "SignedPredicate" in str(ann.get("return", ""))
+
+
+def table_for(fn):
+    """(statement-level table, show-literal-level table) of a REAL collector, from the one-marker probes"""
+    from ngo.utils import ast as nast
+
+    def call(x):
+        try:
+            return list(fn(x, nast.SIGNS))
+        except TypeError:
+            return list(fn(x))
+
+    stm_t, lit_t = {}, {}
+    for k, (text, stm, typ) in probes().items():
+        stm_t[k] = int(any(sp.pred.name == "mk" for sp in call(stm)))
+        if typ == "SHOWTERM":
+            lit_t[k] = int(any(sp.pred.name == "mk" for l in stm.body for sp in call(l)))
+    return stm_t, lit_t
+
+
+def extract_tables():
+    from ngo.utils import ast as nast
+
+    T = {}
+    for name in ("predicates", "headderivable_predicates", "body_predicates", "minimize_predicates"):
+        T[name], lit = table_for(getattr(nast, name))
+        if name == "predicates":
+            T["predicates_on_show_literal"] = lit
+    return T, {k: v[0] for k, v in probes().items()}
 
 
 # --------------------------------------------------------------------------------------------- symbolic values
@@ -163,11 +190,27 @@ class Guarded(list):
 
 
 class DefaultDict:
+    """defaultdict(set) with symbolic key existence (a key exists once it was accessed under a true guard)"""
+
     def __init__(self):
         self.d = {}
+        self.exists = {}
 
-    def get(self, k):
+    def get(self, k, g=None):
+        import z3
+
+        if g is not None:
+            self.exists[k] = z3.Or(self.exists.get(k, z3.BoolVal(False)), g)
         return self.d.setdefault(k, SymSet())
+
+    def items(self):
+        return Guarded((self.exists[k], (k, v)) for k, v in sorted(self.d.items(), key=lambda x: str(x[0])) if k in self.exists)
+
+    def keys(self):
+        return Guarded((g, kv[0]) for g, kv in self.items())
+
+    def values(self):
+        return Guarded((g, kv[1]) for g, kv in self.items())
 
 
 class SymStm:
@@ -220,21 +263,25 @@ class Model:
             sg = [self.sig[(s, p)] for p in POOL]
             self.constraints.append(z3.If(self.typ[(s, "SHOWSIG")], z3.PbEq([(x, 1) for x in sg], 1), z3.Not(z3.Or(sg))))
 
-    def collector(self, name):
+    def collector(self, fn):
         import z3
         from clingo.ast import Sign
         from ngo.utils.ast import Predicate, SignedPredicate
 
+        stm_t, lit_t = table_for(fn)
+        self.T[fn.__name__] = stm_t
+        self.T[fn.__name__ + "@show_literal"] = lit_t
+
         def f(stm, signs=None):
             if isinstance(stm, tuple) and stm[0] == "showlit":
                 _, s, k = stm
-                if not self.T["predicates_on_show_literal"].get(k):
+                if not lit_t.get(k):
                     return Guarded()
                 return Guarded((self.occ[(s, k, p)], SignedPredicate(Sign.NoSign, Predicate(*p))) for p in POOL)
             s = stm.idx
             out = Guarded()
             for p in POOL:
-                g = z3.Or([self.occ[(s, k, p)] for k in KIND_NAMES if self.T[name].get(k)])
+                g = z3.Or([self.occ[(s, k, p)] for k in KIND_NAMES if stm_t.get(k)])
                 out.append((g, SignedPredicate(Sign.NoSign, Predicate(*p))))
             return out
 
@@ -252,14 +299,22 @@ class Interp:
         self.fdef = pyast.parse(src).body[0]
         self.globals = dict(func.__globals__)
         self.model = model
-        for c in ("predicates", "headderivable_predicates", "body_predicates", "minimize_predicates"):
-            self.globals[c] = model.collector(c)
+        self.stubbed = []
+        for name, fn in list(self.globals.items()):
+            if is_collector(fn):
+                self.globals[name] = model.collector(fn)
+                self.stubbed.append(name)
         self.supported = 0
 
     def run(self, *args):
         env = dict(zip([a.arg for a in self.fdef.args.args], args))
         self.ret = None
-        self.block(self.fdef.body, env, self.z3.BoolVal(True))
+        try:
+            self.block(self.fdef.body, env, self.z3.BoolVal(True))
+        except HarnessError:
+            raise
+        except Exception as e:  # noqa
+            raise HarnessError(f"{type(e).__name__}: {e}") from e
         if self.ret is None:
             raise HarnessError("function did not return")
         return self.ret
@@ -325,7 +380,7 @@ class Interp:
         if isinstance(it, Guarded):
             return list(it)
         if isinstance(it, DefaultDict):
-            raise HarnessError("iteration over a dict")
+            return list(it.keys())
         return [(z3.BoolVal(True), v) for v in it]
 
     def expr(self, e, env, g):
@@ -346,25 +401,77 @@ class Interp:
             return "<fstring>"
         if isinstance(e, pyast.ListComp):
             gen = e.generators[0]
-            if len(e.generators) != 1 or gen.ifs:
+            if len(e.generators) != 1:
                 raise HarnessError("unsupported comprehension")
             out = Guarded()
             for guard, val in self.iterate(self.expr(gen.iter, env, g)):
                 env2 = dict(env)
                 self.bind(gen.target, val, env2)
-                out.append((guard, self.expr(e.elt, env2, g)))
+                cond = z3.And([z3.BoolVal(c) if isinstance(c, bool) else c for c in [self.truth(self.expr(i, env2, g)) for i in gen.ifs]] or [z3.BoolVal(True)])
+                out.append((z3.And(guard, cond), self.expr(e.elt, env2, g)))
             return out
         if isinstance(e, pyast.Subscript):
             base = self.expr(e.value, env, g)
             key = self.expr(e.slice, env, g)
             if isinstance(base, DefaultDict):
-                return base.get(key)
+                return base.get(key, g)
             return base[key]
         if isinstance(e, pyast.BinOp) and isinstance(e.op, pyast.Sub):
             l, r = self.expr(e.left, env, g), self.expr(e.right, env, g)
             if not (isinstance(l, SymSet) and isinstance(r, SymSet)):
                 raise HarnessError("set difference on non-sets")
             return SymSet({x: z3.And(m, z3.Not(r.get(x))) for x, m in l.items()})
+        if isinstance(e, pyast.BoolOp):
+            vals = [self.truth(self.expr(v, env, g)) for v in e.values]
+            vals = [z3.BoolVal(v) if isinstance(v, bool) else v for v in vals]
+            return z3.And(vals) if isinstance(e.op, pyast.And) else z3.Or(vals)
+        if isinstance(e, pyast.UnaryOp) and isinstance(e.op, pyast.Not):
+            v = self.truth(self.expr(e.operand, env, g))
+            return (not v) if isinstance(v, bool) else z3.Not(v)
+        if isinstance(e, pyast.BinOp) and isinstance(e.op, (pyast.BitOr, pyast.BitAnd)):
+            l, r = self.expr(e.left, env, g), self.expr(e.right, env, g)
+            if not (isinstance(l, SymSet) and isinstance(r, SymSet)):
+                raise HarnessError("set operation on non-sets")
+            keys = set(l.mem) | set(r.mem)
+            op = z3.Or if isinstance(e.op, pyast.BitOr) else z3.And
+            return SymSet({k: op(l.get(k), r.get(k)) for k in keys})
+        if isinstance(e, pyast.Compare) and len(e.ops) == 1 and isinstance(e.ops[0], (pyast.LtE, pyast.GtE, pyast.Lt, pyast.Gt, pyast.NotEq)):
+            l, r = self.expr(e.left, env, g), self.expr(e.comparators[0], env, g)
+            if isinstance(l, SymSet) and isinstance(r, SymSet):
+                keys = set(l.mem) | set(r.mem)
+                sub = z3.And([z3.Implies(l.get(k), r.get(k)) for k in keys] or [z3.BoolVal(True)])
+                sup = z3.And([z3.Implies(r.get(k), l.get(k)) for k in keys] or [z3.BoolVal(True)])
+                return {pyast.LtE: sub, pyast.GtE: sup, pyast.Lt: z3.And(sub, z3.Not(sup)), pyast.Gt: z3.And(sup, z3.Not(sub)), pyast.NotEq: z3.Not(z3.And(sub, sup))}[type(e.ops[0])]
+            if isinstance(e.ops[0], pyast.NotEq):
+                return l != r
+            raise HarnessError("ordering comparison on non-sets")
+        if isinstance(e, pyast.Compare) and len(e.ops) == 1 and isinstance(e.ops[0], (pyast.In, pyast.NotIn)):
+            l, r = self.expr(e.left, env, g), self.expr(e.comparators[0], env, g)
+            if isinstance(r, SymSet):
+                m = r.get(l)
+            elif isinstance(r, Guarded):
+                m = z3.Or([gd for gd, v in r if v == l] or [z3.BoolVal(False)])
+            elif isinstance(r, DefaultDict):
+                m = r.exists.get(l, z3.BoolVal(False))
+            else:
+                return (l in r) if isinstance(e.ops[0], pyast.In) else (l not in r)
+            return m if isinstance(e.ops[0], pyast.In) else z3.Not(m)
+        if isinstance(e, (pyast.SetComp, pyast.GeneratorExp)):
+            gen = e.generators[0]
+            if len(e.generators) != 1:
+                raise HarnessError("unsupported comprehension")
+            out = Guarded()
+            for guard, val in self.iterate(self.expr(gen.iter, env, g)):
+                env2 = dict(env)
+                self.bind(gen.target, val, env2)
+                cond = z3.And([z3.BoolVal(c) if isinstance(c, bool) else c for c in [self.truth(self.expr(i, env2, g)) for i in gen.ifs]] or [z3.BoolVal(True)])
+                out.append((z3.And(guard, cond), self.expr(e.elt, env2, g)))
+            if isinstance(e, pyast.SetComp):
+                st = SymSet()
+                for guard, v in out:
+                    st.add(v, guard)
+                return st
+            return out
         if isinstance(e, pyast.Compare) and len(e.ops) == 1 and isinstance(e.ops[0], pyast.Eq):
             l, r = self.expr(e.left, env, g), self.expr(e.comparators[0], env, g)
             if isinstance(l, SymSet) and isinstance(r, SymSet):
@@ -417,7 +524,11 @@ class Interp:
         fn = self.expr(f, env, g)
         name = getattr(fn, "__name__", "")
         if fn is set:
-            return SymSet()
+            st = SymSet()
+            if args:
+                for guard, v in self.iterate(args[0]):
+                    st.add(v, guard)
+            return st
         if name == "defaultdict":
             return DefaultDict()
         if fn is enumerate:
@@ -650,7 +761,7 @@ def run(tier, seed):
             "queries": queries, "solver_seconds_total": round(solver_s, 3), "free_booleans": n_bools,
             "bounds": f"n = {n} statements, pool {POOL}, one literal per (statement, kind, predicate); outside: more statements, classical negation, theory atoms, pools in atoms",
             "functions_encoded": ["ngo.utils.globals.auto_detect_input", "ngo.utils.globals.auto_detect_output"],
-            "stubbed_with_extracted_tables": ["ngo.utils.ast.predicates", "headderivable_predicates", "body_predicates", "minimize_predicates"],
+            "stubbed_with_extracted_tables": sorted(set(it_in.stubbed + it_out.stubbed)) if T else [],
             "collector_table": T, "interpreted_statements": {"auto_detect_input": it_in.supported if T else 0, "auto_detect_output": it_out.supported if T else 0},
             "abstraction_validation": {"sampled_models": n_val, "agree": agree},
             "twins": {"reachability": twin if T else None, "sabotaged_spec_refuted": sabotage if T else None},
